@@ -44,12 +44,26 @@ PENDING_WAV_REGAIN = True       # repaired by fix 4d4b8d5, demanded since
 _WAV = {}
 
 
+def _wavdir():
+    """scratch directory for this run's wav fixtures: created by the first process that needs one, inherited by worker
+    processes through the environment, removed when the creating process exits"""
+    import atexit
+    import shutil
+    d = os.environ.get('PSI_C08_WAVDIR')
+    if not d or not os.path.isdir(d):
+        d = tempfile.mkdtemp(prefix='psiverif_c08_')
+        os.environ['PSI_C08_WAVDIR'] = d
+        pid = os.getpid()
+        atexit.register(lambda: shutil.rmtree(d, ignore_errors=True) if os.getpid() == pid else None)
+    return d
+
+
 def wav_path(seed, dtype):
     """a small deterministic wav file (written once per process)"""
     key = (seed, dtype)
     if key not in _WAV:
         from scipy.io import wavfile
-        d = tempfile.mkdtemp(prefix='psiverif_c08_')
+        d = _wavdir()
         rs = np.random.RandomState(seed)
         x = rs.randn(2000) * 0.2 * np.hanning(2000)
         if dtype == 'uint8':
